@@ -201,8 +201,15 @@ void locker(SpinLockMutex &mu, const TaskProg &t)
     if (++W->occupancy > 1)
       vsim::report("C11.spinlock_two_holders", "two tasks inside the critical section");
     W->held = true;
-    for (int i = 0; i < yields; ++i)
-      vsim::yield_cs();
+    if (yields == 9)
+    {
+      // a long hold: waiters go through the whole spin / yield / sleep escalation
+      vsim::probe("spin.long_hold");
+      std::this_thread::sleep_for(std::chrono::milliseconds(3));
+    }
+    else
+      for (int i = 0; i < yields; ++i)
+        vsim::yield_cs();
     W->held = false;
     --W->occupancy;
   };
@@ -321,7 +328,7 @@ void generate(const std::string &prop, Rng &wl, Rng &fl, Case &c)
         Op op;
         double r = wl.real();
         op.kind  = r < 0.5 ? OP_LOCK : (r < 0.85 ? OP_TRYLOCK : OP_GUARD);
-        op.a     = wl.range(0, 3);
+        op.a     = wl.chance(0.15) ? 9 : wl.range(0, 3);
         t.ops.push_back(op);
       }
       c.tasks.push_back(t);
@@ -612,7 +619,8 @@ std::string describe_op(const Case &, int role, const Op &op)
     case OP_SIZE:
       return "size()/empty()";
     case OP_LOCK:
-      return fmt("lock(); %lld yields; unlock()", (long long)op.a);
+      return op.a == 9 ? std::string("lock(); hold for 3 ms (simulated); unlock()")
+                       : fmt("lock(); %lld yields; unlock()", (long long)op.a);
     case OP_TRYLOCK:
       return fmt("try_lock() ? %lld yields; unlock()", (long long)op.a);
     case OP_GUARD:
